@@ -107,8 +107,68 @@ fn check(src: &str) -> Result<(), String> {
         if let Some(c) = st.conflicts() {
             return Err(format!("the grammar is LR(1) (canonical automaton of {} states has no conflicts) but the table reports {} shift/reduce and {} reduce/reduce conflicts", n, c.sr_len(), c.rr_len()));
         }
+        // same parse results as a canonical LR(1) parser: every (short) sentence of the grammar is accepted
+        for sent in sentences(&grm, 7, 400) {
+            if let Some(pos) = first_error(&grm, &st, &sent) {
+                let names: Vec<String> = sent.iter().map(|t| grm.token_name(*t).unwrap_or("?").to_string()).collect();
+                return Err(format!("the grammar is LR(1) and derives `{}` but the table rejects it at token {}", names.join(" "), pos));
+            }
+        }
     }
     Ok(())
+}
+
+/// sentences of at most `maxlen` tokens, by leftmost derivation from the start rule (at most `cap` of them)
+fn sentences(grm: &YaccGrammar<u32>, maxlen: usize, cap: usize) -> Vec<Vec<cfgrammar::TIdx<u32>>> {
+    use cfgrammar::Symbol;
+    let mut out = Vec::new();
+    let mut work: std::collections::VecDeque<Vec<Symbol<u32>>> = std::collections::VecDeque::new();
+    work.push_back(grm.prod(grm.start_prod()).to_vec());
+    let mut steps = 0;
+    while let Some(form) = work.pop_front() {
+        steps += 1;
+        if steps > 40000 || out.len() >= cap { break; }
+        let ntoks = form.iter().filter(|s| matches!(s, Symbol::Token(_))).count();
+        if ntoks > maxlen || form.len() > maxlen + 4 { continue; }
+        match form.iter().position(|s| matches!(s, Symbol::Rule(_))) {
+            None => out.push(form.iter().map(|s| match s { Symbol::Token(t) => *t, _ => unreachable!() }).collect()),
+            Some(k) => {
+                if let Symbol::Rule(r) = form[k] {
+                    for p in grm.rule_to_prods(r) {
+                        let mut f2 = form[..k].to_vec();
+                        f2.extend(grm.prod(*p).iter().cloned());
+                        f2.extend(form[k + 1..].iter().cloned());
+                        work.push_back(f2);
+                    }
+                }
+            }
+        }
+    }
+    out
+}
+
+/// position of the first token (or end of input) at which a plain LR parse with this table fails
+fn first_error(grm: &YaccGrammar<u32>, st: &lrtable::StateTable<u32>, sent: &[cfgrammar::TIdx<u32>]) -> Option<usize> {
+    use lrtable::Action;
+    let mut stack = vec![st.start_state()];
+    let mut i = 0;
+    let mut fuel = 10000;
+    loop {
+        fuel -= 1;
+        if fuel == 0 { return Some(i); }
+        let la = if i < sent.len() { sent[i] } else { grm.eof_token_idx() };
+        match st.action(*stack.last().unwrap(), la) {
+            Action::Shift(s) => { stack.push(s); i += 1; }
+            Action::Reduce(p) => {
+                let n = grm.prod(p).len();
+                let l = stack.len();
+                stack.truncate(l - n);
+                match st.goto(*stack.last().unwrap(), grm.prod_to_rule(p)) { Some(s) => stack.push(s), None => return Some(i) }
+            }
+            Action::Accept => return if i == sent.len() { None } else { Some(i) },
+            Action::Error => return Some(i),
+        }
+    }
 }
 
 pub fn run(src: &str) -> Outcome {
@@ -138,8 +198,18 @@ pub fn crossed_family(seed: u64) -> String {
             s.push_str(&format!("{} X{} {}", pres[i], j, sufs[t]));
         }
     }
+    // padding: further alternatives with their own prefix and rules of the same shape, and a shuffled order of the
+    // alternatives (both change the order in which the item sets' hash maps are filled)
+    let npad = r.below(7);
+    for q in 0..npad { s.push_str(&format!(" | 'y' Y{} {}", q, sufs[q % sufs.len()])); }
     s.push_str(";\n");
-    for j in 0..k { s.push_str(&format!("X{}: 'e';\n", j)); }
+    let mut alts: Vec<String> = s["%start S\n%%\nS: ".len()..s.len() - 2].split(" | ").map(|x| x.to_string()).collect();
+    for a in (1..alts.len()).rev() { let b = r.below(a + 1); alts.swap(a, b); }
+    let mut s = format!("%start S\n%%\nS: {};\n", alts.join(" | "));
+    // the rules are defined in a random order (production numbers are the keys of the item maps)
+    let mut defs: Vec<String> = (0..k).map(|j| format!("X{}: 'e';\n", j)).chain((0..npad).map(|q| format!("Y{}: 'e';\n", q))).collect();
+    for a in (1..defs.len()).rev() { let b = r.below(a + 1); defs.swap(a, b); }
+    for d in defs { s.push_str(&d); }
     s
 }
 
